@@ -355,7 +355,12 @@ JudgeSet(fmt, chain, s, e) ==
              nx == IF allok /\ s.cur + kk <= N THEN chain[s.cur + kk] ELSE el
              posbad == allok /\ e.pos # <<>> /\ nx.coords /\ e.pos # <<nx.line, nx.byte>>
              nxl == IF allok /\ s.cur + kk <= N /\ nx.okRec THEN Len(nx.rec.lines) + 1 ELSE 0
-         IN [viol |-> (IF allok THEN {} ELSE {<<"C04", "batch_content">>} \cup fabset \cup (IF "takeover" \in s.ctx THEN {<<"C09", "batch_content">>} ELSE {}))
+             \* the right number of records, each at its place, but a field differs: the record taken from the set is not what the
+             \* same record shows when it is read singly (C13: "records taken from record sets expose identical values")
+             fielddiff == ~allok /\ kk >= 1 /\ s.cur + kk - 1 <= N /\ (\A i \in 1..kk : chain[s.cur + i - 1].okRec)
+                          /\ \A i \in 1..kk : Eq(batch[i], chain[s.cur + i - 1].rec, FALSE) \/ batch[i].lines = chain[s.cur + i - 1].rec.lines \/ batch[i].head = chain[s.cur + i - 1].rec.head
+         IN [viol |-> (IF allok THEN {} ELSE {<<"C04", "batch_content">>} \cup fabset \cup (IF "takeover" \in s.ctx THEN {<<"C09", "batch_content">>} ELSE {})
+                                            \cup (IF fielddiff THEN {<<"C13", "record_from_a_set_differs_from_the_record_read_singly">>} ELSE {}))
                       \cup (IF allok /\ ~exactok THEN {<<"C04", "exact_count">>} ELSE {})
                       \cup (IF posbad THEN {<<"C05", "position_after_record_set">>} ELSE {})
                       \cup others \cup AllocViolSet(s, e, batch, nxl, allok /\ s.cur + kk <= N /\ nx.errs # {})
